@@ -286,18 +286,161 @@ def strip_looks(t):
     return lead, seq, trail
 
 
+# ------------------------------------------------------------------ text <-> term (for string-level composition in meta code)
+_META = set(".^$*+?{}[]()|\\")
+
+
+def _esc(c):
+    return "\\" + c if c in _META else c
+
+
+def _esc_cls(c):
+    return "\\" + c if c in "\\]^-[" else c
+
+
+def to_text(t, ctx="top"):
+    """Regex text of a term with exactly the groups precedence requires (what the core DSL would emit)."""
+    if isinstance(t, Lit):
+        s = "".join(_esc(c) for c in t.s)
+        return f"(?:{s})" if ctx == "rep" and len(t.s) != 1 else s
+    if isinstance(t, Atom):
+        return chr(0xE100 + (sum(map(ord, t.sym)) % 200))
+    if isinstance(t, Cls):
+        if t.negated and not t.chars:
+            return "."
+        return "[" + ("^" if t.negated else "") + "".join(_esc_cls(c) for c in sorted(t.chars)) + "]"
+    if isinstance(t, Cat):
+        s = "".join(to_text(x, "cat") for x in t.items)
+        return f"(?:{s})" if ctx == "rep" else s
+    if isinstance(t, Alt):
+        s = "|".join(to_text(x, "top") for x in t.items)
+        return f"(?:{s})" if ctx in ("cat", "rep") else s
+    if isinstance(t, Rep):
+        q = "{%d,%s}" % (t.lo, "" if t.hi is None else t.hi)
+        s = to_text(t.t, "rep") + q + ("?" if t.lazy else "")
+        return f"(?:{s})" if ctx == "rep" else s
+    if isinstance(t, Look):
+        return f"(?{'<' if t.behind else ''}{'!' if t.neg else '='}{to_text(t.t, 'top')})"
+    if isinstance(t, Bnd):
+        return "\\" + t.kind
+    if isinstance(t, Grp):
+        inner = to_text(t.t, "top")
+        if t.capture:
+            return f"(?P<{t.name}>{inner})" if t.name else f"({inner})"
+        return f"(?i:{inner})" if t.flag_i else f"(?:{inner})"
+    raise Incomplete(f"printer: term {type(t).__name__}")
+
+
+def from_text(text):
+    """Parse regex text (CPython's parser) back into a term; precedence decides the structure."""
+    import re as _re
+    from .absdom import parse_regex
+    try:
+        tree = parse_regex(text)[0]
+    except _re.error as e:
+        raise PyRaise(_re.error, (str(e),))
+    return _seq(tree)
+
+
+def _seq(items):
+    out = []
+    for it in items:
+        x = _node(it)
+        if isinstance(x, Lit) and out and isinstance(out[-1], Lit):
+            out[-1] = Lit(out[-1].s + x.s)
+        else:
+            out.append(x)
+    return cat(*out)
+
+
+def _node(it):
+    k, v = it
+    if k == "LITERAL":
+        c = chr(v)
+        if 0xE100 <= v < 0xE100 + 200:
+            return Atom(f"atom#{v - 0xE100}")
+        return Lit(c)
+    if k == "NOT_LITERAL":
+        return Cls(frozenset(chr(v)), True)
+    if k == "ANY":
+        return Cls(frozenset(), True, "Any")
+    if k == "IN":
+        chars, neg = set(), False
+        for j in v:
+            if j[0] == "NEGATE":
+                neg = True
+            elif j[0] == "LITERAL":
+                chars.add(chr(j[1]))
+            elif j[0] == "RANGE":
+                if j[1][1] - j[1][0] > 70000:
+                    raise Incomplete("range too large")
+                chars.update(chr(c) for c in range(j[1][0], j[1][1] + 1))
+            elif j[0] == "CATEGORY":
+                name = str(j[1])
+                base = {"CATEGORY_DIGIT": set("0123456789"), "CATEGORY_WORD": set(WORD), "CATEGORY_SPACE": set(" \t\n\r\x0b\x0c")}.get(name)
+                if base is None:
+                    raise Incomplete(f"category {name}")
+                chars |= base
+            else:
+                raise Incomplete(f"class item {j[0]}")
+        return Cls(frozenset(chars), neg)
+    if k == "BRANCH":
+        return alt(*[_seq(a) for a in v[1]])
+    if k in ("MAX_REPEAT", "MIN_REPEAT"):
+        lo, hi, body = v
+        hi = None if (isinstance(hi, str) or hi >= 4294967295) else hi
+        return Rep(_seq(body), lo, hi, k == "MIN_REPEAT" and lo != hi)
+    if k in ("ASSERT", "ASSERT_NOT"):
+        return Look(v[0] < 0, k == "ASSERT_NOT", _seq(v[1]))
+    if k == "AT":
+        name = str(v)
+        if name == "AT_BOUNDARY":
+            return Bnd("b")
+        if name == "AT_NON_BOUNDARY":
+            return Bnd("B")
+        return Atom(name)
+    if k == "SUBPATTERN":
+        group, add, dele, body = v
+        return Grp(_seq(body), group is not None, None, bool(add & 2))
+    if k == "GROUPREF":
+        return Atom(f"backref{v}")
+    raise Incomplete(f"parser: node {k}")
+
+
 # ------------------------------------------------------------------ DSL denotations
 class TermText(Native):
-    """str(term): only good for handing to Pregex.__init__(..., escape=False)."""
+    """str(term): the regex text of a term.  Concatenating it with other text re-parses the result, so that
+    string-level composition in meta code gets the structure regex precedence gives it."""
 
-    def __init__(self, t):
+    def __init__(self, t, raw=None):
         self.t = t
+        self.raw = raw
+
+    def text(self):
+        return self.raw if self.raw is not None else to_text(self.t, "top")
 
     def sa_str(self, interp):
         return self
 
     def sa_eq(self, interp, other):
-        return isinstance(other, TermText) and other.t == self.t
+        if isinstance(other, TermText):
+            return other.t == self.t or other.text() == self.text()
+        if isinstance(other, str):
+            return self.text() == other
+        return False
+
+    def sa_binop(self, interp, op, other, reflected):
+        if op not in ("__add__", "__radd__"):
+            return NotImplemented
+        o = other.text() if isinstance(other, TermText) else other if isinstance(other, str) else None
+        if o is None:
+            return NotImplemented
+        return join_text([o, self] if reflected else [self, o])
+
+
+def join_text(parts):
+    raw = "".join(p.text() if isinstance(p, TermText) else p for p in parts)
+    return TermText(from_text(raw), raw)
 
 
 class MT(Native):
@@ -662,6 +805,15 @@ class MetaEnv:
 
 
 class MetaHooks(PregexHooks):
+    def join_parts(self, interp, parts, node):
+        conv = []
+        for p in parts:
+            if isinstance(p, (str, TermText)):
+                conv.append(p)
+            else:
+                raise Incomplete("f-string over an unsupported object in meta mode")
+        return join_text(conv)
+
     def __init__(self, model: Model, env: MetaEnv):
         super().__init__(model)
         self.env = env
